@@ -173,11 +173,15 @@ def gen_tree(rng, prof=None, depth=0, idgen=None, top=True, maxdepth=None):
     window = None
     if rng.random() < p.get('p_window', 0.4):
         window = rng.choice(p.get('windows', [1, 1, 2, 3]))
+    elif rng.random() < 0.05:
+        window = 0          # documented: None or 0 means no limit
     spec['window'] = window
     spec['sdt'] = rng.choice(p.get('sdts', [1, 1, 0, 2, None]))
     spec['critical'] = rng.random() < p.get('p_sched_critical', 0.6)
     spec['forever'] = (not top) and rng.random() < p.get('p_forever_sched', 0.1)
     spec['verbose'] = rng.random() < p.get('p_verbose', 0.05)
+    if spec['verbose'] and rng.random() < 0.5:
+        spec['watch'] = True
     if top:
         spec['pure'] = rng.random() < p.get('p_pure', 0.25)
     jobs = []
